@@ -59,7 +59,7 @@ const FRAGS: &[Frag] = &[
     f("\\count0=70 \\count32767=71 \\dimen0=7pt \\dimen32767=8pt \\skip0=7pt plus 1pt \\skip32767=8pt minus 1pt \\toks0={t0}\\toks255={t255}\\count32766=76 \\toks254={t254}", 0, 0, false, &["first-last", "local"]),
     f("\\countdef\\cy=0 \\cy=72 \\countdef\\cz=32767 \\cz=73 \\toksdef\\ty=0 \\ty={ty}\\toksdef\\tz=255 \\tz={tz}", 0, 0, false, &["first-last", "alias-variable", "local"]),
     f("{\\count0=74 \\count32767=75 \\dimen32767=9pt \\skip32767=9pt plus 2fil \\toks0={g0}\\toks255={g255}", 1, 0, true, &["first-last", "local"]),
-    // code tables: characters 0, 127 (low table ends), 128 (high table begins), U+10FFFE (the largest texcraft accepts: its range check is [0, 1114111))
+    // code tables: characters 0, 127 (low table ends), 128 (high table begins), U+10FFFE
     f("\\catcode0=11 \\catcode127=11 \\catcode128=11 \\catcode1114110=11 \\catcode129=11 \\mathcode0=1 \\mathcode127=2 \\mathcode128=3 \\mathcode1114110=4 ", 0, 0, false, &["first-last", "high-code", "local"]),
     // streams 0 and 15 (stream 15 positioned after its first line), first and last element of an allocated array
     f("\\openin 0 f \\openin 15 g \\read 15 to \\rz ", 0, 0, false, &["first-last", "stream", "read", "local"]),
@@ -115,7 +115,7 @@ const FRAGS: &[Frag] = &[
     f("\\read 3 to \\r ", 0, 0, false, &["read", "local"]),
 ];
 
-const RECOVERABLE_ERROR: &str = "\\catcode1114111=11 ";
+const RECOVERABLE_ERROR: &str = "\\catcode1114112=11 ";
 /// Finding (not in DESIGN §4): a VM that holds a recorded error cannot be serialised to JSON –
 /// `TracedTexError::token_traces` is a `HashMap<Token, _>`, and JSON keys must be strings ("key must be a
 /// string"); MessagePack and bincode are unaffected. Goes through `acc.known` under this id.
